@@ -55,6 +55,8 @@ func runSolver(sp solverSpec, file string, timeoutS int) (res string, out string
 	return
 }
 
+var renderMu sync.Mutex
+
 // solveAll discharges obligations in parallel. tier: quick or thorough.
 func solveAll(obls []*Obl, outDir, tier string, workers int) {
 	os.MkdirAll(outDir, 0o755)
@@ -75,7 +77,11 @@ func solveAll(obls []*Obl, outDir, tier string, workers int) {
 				}
 				file := filepath.Join(outDir, fmt.Sprintf("%04d.smt2", i))
 				o.Script = file
-				os.WriteFile(file, []byte(o.script(true)), 0o644)
+				// rendering touches the engine's shared sort/decl tables: serialise it
+				renderMu.Lock()
+				txt := o.script(true)
+				renderMu.Unlock()
+				os.WriteFile(file, []byte(txt), 0o644)
 				solveOne(o, file, timeout, tier)
 			}
 		}()
@@ -148,7 +154,10 @@ func solveOne(o *Obl, file string, timeout int, tier string) {
 		// No verdict: look for a candidate counterexample with the quantified assumptions dropped.
 		// Such a model is only a candidate; it is trusted only if the replay reproduces it on the real code.
 		weak := file + ".weak.smt2"
-		os.WriteFile(weak, []byte(stripQuantified(o.script(true))), 0o644)
+		renderMu.Lock()
+		wtxt := stripQuantified(o.script(true))
+		renderMu.Unlock()
+		os.WriteFile(weak, []byte(wtxt), 0o644)
 		rs, ou, se := runSolver(solvers[0], weak, 5)
 		o.Secs += se
 		if rs == "sat" {
